@@ -752,10 +752,16 @@ func hasPhraseTest(env envs.Environment, hays []string, pins []string) types.XVa
 		return NewTrueResult(types.XTextEmpty)
 	}
 
+	// the words of the phrase are compared with many words of the text, so are transformed once
+	pinForms := make([]string, len(pins))
+	for i, pin := range pins {
+		pinForms[i] = envs.CollateTransform(env, pin)
+	}
+
 	pinIdx := 0
 	matches := make([]string, len(pins))
 	for i, hay := range hays {
-		if envs.CollateEquals(env, hay, pins[pinIdx]) {
+		if envs.CollateTransform(env, hay) == pinForms[pinIdx] {
 			matches[pinIdx] = hays[i]
 			pinIdx++
 			if pinIdx == len(pins) {
@@ -774,33 +780,26 @@ func hasPhraseTest(env envs.Environment, hays []string, pins []string) types.XVa
 }
 
 func hasAllWordsTest(env envs.Environment, hays []string, pins []string) types.XValue {
+	// words are equal when their collation forms are, so each word is transformed once and looked up, rather than every
+	// word of the text being compared with every word of the test
+	pinForms := make(map[string]bool, len(pins))
+	for _, pin := range pins {
+		pinForms[envs.CollateTransform(env, pin)] = true
+	}
+
 	matches := make([]string, 0, len(pins))
-	pinMatches := make([]int, len(pins))
+	hayForms := make(map[string]bool, len(pins))
 
-	for i, hay := range hays {
-		matched := false
-		for j, pin := range pins {
-			if envs.CollateEquals(env, hay, pin) {
-				matched = true
-				pinMatches[j]++
-			}
-		}
-
-		if matched {
-			matches = append(matches, hays[i])
+	for _, hay := range hays {
+		form := envs.CollateTransform(env, hay)
+		if pinForms[form] {
+			hayForms[form] = true
+			matches = append(matches, hay)
 		}
 	}
 
-	allMatch := true
-	for _, matchCount := range pinMatches {
-		if matchCount == 0 {
-			allMatch = false
-			break
-		}
-
-	}
-
-	if allMatch {
+	// every word of the test has to be in the text
+	if len(hayForms) == len(pinForms) {
 		return NewTrueResult(types.NewXText(strings.Join(matches, " ")))
 	}
 
@@ -808,19 +807,16 @@ func hasAllWordsTest(env envs.Environment, hays []string, pins []string) types.X
 }
 
 func hasAnyWordTest(env envs.Environment, hays []string, pins []string) types.XValue {
-	matches := make([]string, 0, len(pins))
-	for i, hay := range hays {
-		matched := false
-		for _, pin := range pins {
-			if envs.CollateEquals(env, hay, pin) {
-				matched = true
-				break
-			}
-		}
-		if matched {
-			matches = append(matches, hays[i])
-		}
+	pinForms := make(map[string]bool, len(pins))
+	for _, pin := range pins {
+		pinForms[envs.CollateTransform(env, pin)] = true
+	}
 
+	matches := make([]string, 0, len(pins))
+	for _, hay := range hays {
+		if pinForms[envs.CollateTransform(env, hay)] {
+			matches = append(matches, hay)
+		}
 	}
 
 	if len(matches) > 0 {
